@@ -18,7 +18,7 @@ def check(run):
         plans.append(dict(dom=dom, ty=ty, maxlen=10, maxdim=3, ill=3, coef=3, num=(80 if q else 350)))
     # transformer-focused recipes (the deduction rules of the relational transformers need bounded operands and fractional coefficients)
     for dom, ty in ([("oct", "mpq"), ("bds", "mpq"), ("box", "mpq"), ("oct", "i16"), ("bds", "flt")] if q else combos):
-        plans.append(dict(dom=dom, ty=ty, maxlen=9, maxdim=2, ill=0, coef=3, num=(900 if q else 1500), recipe=True, opset=shapelib.IMG_OPS + shapelib.IMG_BASE))
+        plans.append(dict(dom=dom, ty=ty, maxlen=9, maxdim=2, ill=0, coef=3, num=((3000 if (dom, ty) == ("oct", "mpq") else 900) if q else 1500), recipe=True, opset=shapelib.IMG_OPS + (shapelib.CTOR_BASE if q else shapelib.IMG_BASE)))
     shapelib.run_shapes(run, "C03", plans)
     run.assumptions += ["an element with a coefficient beyond 10^5 can be judged as a result (exact BigInt comparison) but not serve as an argument of a later call (undecided)",
                         "calls involving proper congruences are undecided (the result is not a polyhedral set); conversions from grids are not covered",
